@@ -43,6 +43,7 @@ class EventMixin(object):
     h.seg = 'head:%s' % (key,)
     h.trace = []
     h.evidx = 0
+    h.allocidx = 0
     # path condition: keep only facts about values that are not loop-carried (parameters etc.)
     from pvc.stmts import assigned_names
     for nm in sorted(assigned_names(body) | set(extra_names)):
@@ -166,6 +167,7 @@ def run_event(world, contract, node, modinfo, ExecCls, shared=None):
   ex.requires_hyps = list(st.pc)
   ex.entry_heap = st.heap
   st.seg = 'entry'
+  st.event_mode = True
   for kind, st1, v in ex.exec_block(node.body, st):
     ex.n_paths += 1
     if kind in ('normal', 'return'):
@@ -216,13 +218,43 @@ def compare(impl_segments, spec_segments, oblige):
       oblige('bisim/%s/reachable-on-both-sides' % start, [], z3.BoolVal(not ps and not qs) if False else z3.BoolVal(False),
              'segment %s exists only in the %s' % (start, 'implementation' if ps else 'specification'))
       continue
+    lits_p = [_literals(p.pc) for p in ps]
+    lits_q = [_literals(q.pc) for q in qs]
     for i, p in enumerate(ps):
       for j, q in enumerate(qs):
+        if _conflict(lits_p[i], lits_q[j]):
+          continue            # the two path conditions contain complementary literals: infeasible pair
         hyps = p.pc + q.pc
         goal, why = pair_goal(p, q)
         oblige('bisim/%s/%dx%d' % (start, i, j), hyps, goal, why)
         n += 1
   return n
+
+
+def _literals(pc):
+  pos, neg = set(), set()
+
+  def add(f):
+    pol = True
+    while z3.is_not(f):
+      f = f.arg(0)
+      pol = not pol
+    if pol and z3.is_and(f):
+      for g in f.children():
+        add(g)
+      return
+    if not pol and z3.is_or(f):
+      for g in f.children():
+        add(z3.Not(g))
+      return
+    (pos if pol else neg).add(f.get_id())
+  for f in pc:
+    add(f)
+  return pos, neg
+
+
+def _conflict(a, b):
+  return bool(a[0] & b[1]) or bool(a[1] & b[0])
 
 
 def pair_goal(p, q):
